@@ -540,7 +540,16 @@ func (exp *exporter) TableOfContentsInfos(flags map[string]bool) {
 	}
 }
 
+// checkCmd reports an environment or command name that cannot be one: it
+// would be written as it is between braces or after a backslash.
+func (exp *exporter) checkCmd(cmd string) {
+	if strings.ContainsAny(cmd, "{}\\") {
+		exp.Context().Error("-c option argument should not contain the characters `{', `}' or `\\'")
+	}
+}
+
 func (exp *exporter) Xdtag(cmd string, pairs []string) frundis.Dtag {
+	exp.checkCmd(cmd)
 	return frundis.Dtag{Cmd: cmd, Pairs: pairs}
 }
 
@@ -551,6 +560,7 @@ func (exp *exporter) Xmtag(cmd *string, begin string, end string, pairs []string
 	} else {
 		c = *cmd
 	}
+	exp.checkCmd(c)
 	// TODO: perhaps process pairs here and do some error checking
 	return frundis.Mtag{Begin: begin, End: end, Cmd: c, Pairs: pairs}
 }
